@@ -124,3 +124,331 @@ def gen_nanos(rng, n):
         via = rng.choice(["utc", "local", "local"])
         off = rng.choice([0, 1, -1, 3600, -3600, I32MAX, I32MIN + 1, rng.randint(I32MIN + 1, I32MAX)])
         yield {"op": "fromnanos", "a": {"N": W(N), "via": via, "type": {"off": off, "dst": rng.randint(0, 1), "des": rng.choice([[], B("ABC"), B("+0330")])}}}
+
+
+# =============================================================================================
+# zones
+
+DESIGS = ["LMT", "UTC", "CET", "CEST", "EST", "EDT", "+03", "-0330", "+1245", "ABCDEFG", "a-b+c", "GMT"]
+
+
+def rand_type(rng, offs="small"):
+    if offs == "small":
+        off = rng.choice([0, 3600, -3600, 7200, -18000, 19800, 45900, -1, 1, 59, -59, 60, 86399, -86399, rng.randint(-50000, 50000)])
+    elif offs == "tiny":
+        off = rng.randint(-3, 3)
+    else:
+        off = rng.choice([I32MAX, I32MIN + 1, rng.randint(I32MIN + 1, I32MAX), rng.randint(-10**6, 10**6)])
+    return {"off": off, "dst": rng.randint(0, 1), "des": B(rng.choice(DESIGS)) if rng.random() < 0.8 else []}
+
+
+def rand_leaps(rng, n, start=None):
+    """A valid leap table with n records."""
+    out = []
+    r = start if start is not None else rng.choice([0, 78796800, rng.randint(0, 2 * 10**9)])
+    c = 0
+    for i in range(n):
+        c += rng.choice([1, 1, 1, -1])
+        out.append([r, c])
+        r += rng.choice([2419199, 2419200, 2419201, 15724800, 31536001, rng.randint(2419199, 10**8)])
+    return out
+
+
+REAL_LEAPS = [78796800, 94694401, 126230402, 157766403, 189302404, 220924805, 252460806, 283996807, 315532808, 362793609, 394329610, 425865611,
+              489024012, 567993613, 631152014, 662688015, 709948816, 741484817, 773020818, 820454419, 867715220, 915148821, 1136073622, 1230768023,
+              1341100824, 1435708825, 1483228826]
+
+
+def leap_table(rng):
+    k = rng.random()
+    if k < 0.45:
+        return []
+    if k < 0.55:
+        return [[r, i + 1] for i, r in enumerate(REAL_LEAPS)]
+    return rand_leaps(rng, rng.randint(1, 6))
+
+
+def gen_table_zone(rng, nmax=12, offs=None, base=None, leaps=None, rule="auto"):
+    """A valid zone with a transition table, optional leap table and optional *fixed* trailing rule."""
+    offs = offs or rng.choice(["small", "small", "small", "tiny", "wide"])
+    ntypes = rng.randint(1, 5)
+    ty = [rand_type(rng, offs) for _ in range(ntypes)]
+    n = rng.randint(0, nmax)
+    lp = leap_table(rng) if leaps is None else leaps
+    t = base if base is not None else rng.choice([0, rng.randint(-2**33, 2**33), rng.randint(-10**6, 2 * 10**9)])
+    if lp and rng.random() < 0.7:
+        t = rng.choice(lp)[0] + rng.randint(-3, 3)
+    tr = []
+    for i in range(n):
+        tr.append([t, rng.randrange(ntypes)])
+        step = rng.choice([1, 2, 3, 60, 1800, 3599, 3600, 3601, 86400, rng.randint(1, 7200), rng.randint(1, 10**8)])
+        if offs == "wide" and rng.random() < 0.5:
+            step = rng.randint(1, 2**33)
+        if offs == "tiny":
+            step = rng.randint(1, 3)
+        if lp and rng.random() < 0.3:
+            cand = rng.choice(lp)[0] + rng.randint(-2, 2)
+            if cand > t:
+                step = cand - t
+        t += step
+    if rule == "auto":
+        rule = rng.choice(["none", "none", "fixed"])
+    if rule == "fixed":
+        rl = {"k": "fixed", "t": dict(ty[tr[-1][1]]) if tr else rand_type(rng, offs)}
+    else:
+        rl = {"k": "none"}
+    return {"tr": tr, "ty": ty, "lp": lp, "rule": rl}
+
+
+def zone_event(z, group=True):
+    e = {"op": "zone", "a": {"tr": [[W(t), ix] for t, ix in z["tr"]], "ty": z["ty"], "lp": [[W(r), c] for r, c in z["lp"]], "rule": z["rule"], "via": "owned"}}
+    if group:
+        e["g"] = 1
+    return e
+
+
+def civil_from_days(z):
+    z += 719468
+    era = (z if z >= 0 else z - 146096) // 146097
+    doe = z - era * 146097
+    yoe = (doe - doe // 1460 + doe // 36524 - doe // 146096) // 365
+    y = yoe + era * 400
+    doy = doe - (365 * yoe + yoe // 4 - yoe // 100)
+    mp = (5 * doy + 2) // 153
+    d = doy - (153 * mp + 2) // 5 + 1
+    m = mp + (3 if mp < 10 else -9)
+    return (y + (m <= 2), m, d)
+
+
+def fields_of_local(L, ns=0, sec60=False):
+    """Calendar fields showing local second count L (generator-side arithmetic: chooses what to search for)."""
+    days, s = divmod(L, 86400)
+    y, m, d = civil_from_days(days)
+    f = {"y": y, "mo": m, "d": d, "h": s // 3600, "mi": (s % 3600) // 60, "s": s % 60, "ns": ns}
+    return f
+
+
+def probe_instants(rng, z):
+    """Instants worth looking up in a zone: every transition -1/0/+1 (in UTC and in leap count), both ends, leap records."""
+    pts = set()
+    corr_all = [c for _, c in z["lp"]] + [0]
+    for t, _ in z["tr"]:
+        for c in set(corr_all[-3:] + [0]) if len(corr_all) > 3 else set(corr_all):
+            for dlt in (-2, -1, 0, 1, 2):
+                pts.add(t - c + dlt)
+    for r, c in z["lp"]:
+        for dlt in (-2, -1, 0, 1, 2):
+            pts.add(r + dlt)
+            pts.add(r - c + dlt)
+    if z["tr"]:
+        pts.add(z["tr"][0][0] - 10**6)
+        pts.add(z["tr"][-1][0] + 10**6)
+    pts.add(rng.randint(-2**40, 2**40))
+    return [p for p in pts if I64MIN <= p <= I64MAX]
+
+
+def gen_zone_session(rng, z, nprobe=40, do_find=True, do_findn=False, lookups=True):
+    """One group: construct the zone, then look up / search around its interesting points."""
+    yield zone_event(z)
+    pts = probe_instants(rng, z)
+    rng.shuffle(pts)
+    offs = sorted({t["off"] for t in z["ty"]} | ({z["rule"]["t"]["off"]} if z["rule"]["k"] == "fixed" else set())
+                  | ({z["rule"]["std"]["off"], z["rule"]["dst"]["off"]} if z["rule"]["k"] == "alt" else set()))
+    for u in pts[:nprobe]:
+        if lookups:
+            yield {"op": "lookup", "a": {"u": W(u), "via": rng.choice(["ref", "owned"])}}
+            if rng.random() < 0.3:
+                yield {"op": "localtime", "a": {"u": W(u), "ns": rng.choice([0, 999999999])}}
+        if do_find and MINT + 2**32 < u < MAXT - 2**32:
+            # local times within one offset of the point: the four boundary seconds of a gap/fold at u for each offset pair
+            o = rng.choice(offs)
+            L = u + o + rng.choice([-1, 0, 0, 1])
+            f = fields_of_local(L, rng.choice([0, 5]))
+            if rng.random() < 0.03 and f["s"] == 59:
+                f["s"] = 60
+            if do_findn and rng.random() < 0.5:
+                f["n"] = rng.randint(0, 4)
+                yield {"op": "findn", "a": f}
+            else:
+                yield {"op": "find", "a": f}
+
+
+# ---- C03: table-length sweep (every parity of the binary search) ----
+def gen_c03_sweep(rng, nmax):
+    for n in range(0, nmax + 1):
+        ntypes = rng.randint(1, 4)
+        ty = [rand_type(rng) for _ in range(ntypes)]
+        t = rng.choice([-10**9, 0, rng.randint(-2**50, 2**50)])
+        tr = []
+        for i in range(n):
+            tr.append([t, rng.randrange(ntypes)])
+            t += rng.choice([1, 2, rng.randint(1, 10**6)])
+        z = {"tr": tr, "ty": ty, "lp": [], "rule": rng.choice([{"k": "none"}, {"k": "fixed", "t": dict(ty[tr[-1][1]]) if tr else ty[0]}])}
+        yield zone_event(z)
+        pts = set()
+        for tt, _ in tr:
+            pts.update([tt - 1, tt, tt + 1])
+        if tr:
+            pts.update([tr[0][0] - 1000, tr[-1][0] + 1000])
+        pts.add(0)
+        pts = sorted(pts)
+        if len(pts) > 60:
+            pts = rng.sample(pts, 60)
+        for u in pts:
+            yield {"op": "lookup", "a": {"u": W(u), "via": rng.choice(["ref", "owned"])}}
+        for u in rng.sample(pts, min(5, len(pts))):
+            yield {"op": "localtime", "a": {"u": W(u), "ns": 1}}
+
+
+def gen_c03_extreme(rng, n):
+    """transition times anywhere in i64, including the ends and adjacent values"""
+    for _ in range(n):
+        ntypes = rng.randint(1, 3)
+        ty = [rand_type(rng, rng.choice(["small", "wide"])) for _ in range(ntypes)]
+        pool = [I64MIN, I64MIN + 1, I64MIN + 2, I64MAX - 2, I64MAX - 1, I64MAX, MINT - 1, MINT, MINT + 1, MAXT - 1, MAXT, MAXT + 1, -1, 0, 1]
+        pool += [rng.randint(I64MIN, I64MAX) for _ in range(6)]
+        times = sorted(set(rng.sample(pool, rng.randint(1, 8))))
+        tr = [[t, rng.randrange(ntypes)] for t in times]
+        z = {"tr": tr, "ty": ty, "lp": [], "rule": {"k": "none"}}
+        yield zone_event(z)
+        for t in times:
+            for u in (t - 1, t, t + 1):
+                if I64MIN <= u <= I64MAX:
+                    yield {"op": "lookup", "a": {"u": W(u), "via": "ref"}}
+                    if rng.random() < 0.3:
+                        yield {"op": "localtime", "a": {"u": W(u), "ns": 0}}
+
+
+# ---- C12 ----
+def gen_c12(rng, nzones):
+    for i in range(nzones):
+        k = rng.random()
+        if k < 0.25:
+            lp = [[r, j + 1] for j, r in enumerate(REAL_LEAPS)]
+        else:
+            lp = rand_leaps(rng, rng.randint(1, 40 if rng.random() < 0.2 else 8), start=rng.choice([0, 5, 78796800, rng.randint(0, 10**9)]))
+        ntypes = rng.randint(2, 4)
+        ty = [rand_type(rng) for _ in range(ntypes)]
+        # probe zone: transitions at, just before and just after leap records
+        cand = set()
+        for r, c in rng.sample(lp, min(len(lp), 6)):
+            cand.add(r + rng.choice([-2, -1, 0, 0, 1, 2]))
+        times = sorted(cand)
+        tr = [[t, (j + 1) % ntypes] for j, t in enumerate(times)]
+        rule = rng.choice([{"k": "none"}, {"k": "fixed", "t": dict(ty[tr[-1][1]])}])
+        z = {"tr": tr, "ty": ty, "lp": lp, "rule": rule}
+        yield from gen_zone_session(rng, z, nprobe=60, do_find=True)
+
+
+# ---- C13 ----
+def gen_c13(rng, n):
+    for _ in range(n):
+        z = gen_table_zone(rng, nmax=8)
+        k = rng.random()
+        z = {kk: (list(v) if isinstance(v, list) else dict(v)) for kk, v in z.items()}
+        z["tr"] = [list(t) for t in z["tr"]]
+        z["lp"] = [list(t) for t in z["lp"]]
+        if k < 0.15:
+            pass                                    # valid
+        elif k < 0.30 and z["tr"]:
+            i = rng.randrange(len(z["tr"])) if rng.random() < 0.6 else len(z["tr"]) - 1
+            z["tr"][i][1] = len(z["ty"]) + rng.choice([0, 0, 1, 200])
+            if z["rule"]["k"] != "none" and rng.random() < 0.5:
+                z["rule"] = {"k": "none"}
+        elif k < 0.45 and len(z["tr"]) >= 2:
+            i = rng.randrange(len(z["tr"]) - 1)
+            z["tr"][i + 1][0] = z["tr"][i][0] - rng.choice([0, 0, 1, 1000])
+        elif k < 0.70:
+            if not z["lp"]:
+                z["lp"] = rand_leaps(rng, rng.randint(1, 5))
+                z["tr"] = []
+                z["rule"] = {"k": "none"}
+            kind = rng.randrange(6)
+            lp = z["lp"]
+            if kind == 0:
+                lp[0][1] = rng.choice([0, 2, -2, I32MIN, I32MAX])
+            elif kind == 1:
+                shift = lp[0][0] + rng.choice([1, 1, 5])
+                for rec in lp:
+                    rec[0] -= shift
+            elif kind == 2 and len(lp) >= 2:
+                i = rng.randrange(len(lp) - 1)
+                d = lp[i + 1][0] - lp[i][0]
+                delta = d - rng.choice([2419198, 2419198, 2419199, 0, -5])       # 2419199 keeps it valid (exact minimum)
+                for rec in lp[i + 1:]:
+                    rec[0] -= delta
+            elif kind == 3 and len(lp) >= 2:
+                i = rng.randrange(len(lp) - 1)
+                lp[i + 1][1] = lp[i][1] + rng.choice([0, 2, -2, 3])
+            elif kind == 4:
+                lp[-1][0] = rng.choice([I64MAX, I64MAX - 1])
+            else:
+                pass
+        elif k < 0.85 and z["tr"]:
+            last = dict(z["ty"][z["tr"][-1][1]])
+            which = rng.randrange(5)
+            if which == 0:
+                last["off"] += rng.choice([1, -1, 3600]) if abs(last["off"]) < 2**31 - 4000 else (-1 if last["off"] > 0 else 1)
+            elif which == 1:
+                last["dst"] = 1 - last["dst"]
+            elif which == 2:
+                last["des"] = B("XYZ") if last["des"] != B("XYZ") else B("XYY")
+            elif which == 3:
+                last["des"] = [] if last["des"] else B("UTC")
+            z["rule"] = {"k": "fixed", "t": last}
+        elif k < 0.92:
+            z["tr"] = [[rng.choice([I64MIN, I64MIN + 1, I64MAX, I64MAX - 1]), 0]]
+            z["rule"] = {"k": "fixed", "t": dict(z["ty"][0])}
+            if rng.random() < 0.5:
+                z["lp"] = rand_leaps(rng, 2)
+        else:
+            z["ty"] = []
+            z["tr"] = [] if rng.random() < 0.7 else z["tr"][:1]
+            z["rule"] = {"k": "none"}
+        yield zone_event(z)
+        if rng.random() < 0.3:
+            yield {"op": "lookup", "a": {"u": W(rng.randint(-10**9, 10**9)), "via": "ref"}}
+    # local time types
+    alphabet = [ord("A"), ord("z"), ord("0"), ord("9"), ord("+"), ord("-"), ord(" "), 0, 0x80, ord("_"), ord("/"), ord(":"), ord("<")]
+    for _ in range(n):
+        ln = rng.randint(0, 9)
+        if rng.random() < 0.6:
+            des = [rng.choice(alphabet[:6]) for _ in range(ln)]
+        else:
+            des = [rng.choice(alphabet) for _ in range(ln)]
+        yield {"op": "type", "a": {"off": rng.choice([0, I32MIN, I32MIN + 1, I32MAX, rng.randint(I32MIN, I32MAX)]), "dst": rng.randint(0, 1), "des": des,
+                                  "nodes": 1 if rng.random() < 0.1 else 0, "via": rng.choice(["new", "new", "with_ut_offset"])}}
+
+
+# ---- C05 / C06 / C17 ----
+def gen_find_zones(rng, nzones, findn=False):
+    for _ in range(nzones):
+        z = gen_table_zone(rng, nmax=rng.choice([3, 6, 12, 40]))
+        yield from gen_zone_session(rng, z, nprobe=50, do_find=True, do_findn=findn, lookups=not findn)
+
+
+# ---- C14 ----
+def gen_c14(rng, n):
+    z = gen_table_zone(rng, nmax=10)
+    yield zone_event(z)
+    for i in range(n):
+        if i % 200 == 199:
+            yield zone_event(gen_table_zone(rng, nmax=10))
+        t = interesting_instant(rng)
+        ns = rng.choice([0, 1, 999999999, rng.randint(0, 999999999)])
+        ty = rand_type(rng, rng.choice(["small", "wide", "wide"]))
+        k = rng.random()
+        if k < 0.25:
+            yield {"op": "fromlocal", "a": {"t": W(t), "ns": ns, "type": ty}}
+        elif k < 0.45:
+            f = rand_fields(rng, 0.85)
+            f["type"] = ty
+            yield {"op": "newdt", "a": f}
+        elif k < 0.65:
+            yield {"op": "project", "a": {"t": W(t), "ns": ns, "type": ty, "via": rng.choice(["dt", "utc"])}}
+        elif k < 0.85:
+            t2 = t + rng.choice([0, 0, 1, -1, rng.randint(-5, 5)])
+            ns2 = rng.choice([ns, ns, 0, 999999999])
+            yield {"op": "dtcmp", "a": {"a": {"t": W(t), "ns": ns, "type": ty}, "b": {"t": W(max(I64MIN, min(I64MAX, t2))), "ns": ns2, "type": rand_type(rng, "wide")}}}
+        else:
+            yield {"op": "localtime", "a": {"u": W(t), "ns": ns}}
